@@ -1,7 +1,7 @@
 //! C14 engine binary: extensional equality on the exhaustive pair space.
 use engines::common::Ctx;
 use engines::eqclone::Eqc;
-use engines::fam::{Copyf, Track};
+use engines::fam::{Copyf, OddF, TinyF, Track, WordF};
 
 fn main() {
     let mut cx = Ctx::from_args("eng_eq");
@@ -36,6 +36,12 @@ fn main() {
             e.set_pairs::<Track, 2, 2>(4);
             e.set_pairs::<Track, 3, 3>(4);
             e.set_pairs::<Copyf, 4, 5>(4);
+            // drop-less keys whose == is not bit equality (equal keys of the two operands differ in their tag bits)
+            e.map_pairs::<TinyF, 4, 4>(3);
+            e.set_pairs::<TinyF, 4, 3>(4);
+            e.map_pairs::<WordF, 3, 4>(3);
+            e.set_pairs::<WordF, 4, 4>(4);
+            e.set_pairs::<OddF, 3, 4>(4);
         }
         if e.cx.shard.0 == 0 && e.cx.only_hist.is_none() {
             e.zst_pairs::<2, 2>();
@@ -50,9 +56,13 @@ fn main() {
             e.random_histories::<Track, 8, 5>(random / 4);
             e.random_histories::<Track, 3, 16>(random / 4);
             e.random_histories::<Copyf, 8, 8>(random / 4);
-            e.big_pairs::<40, 70>(random / 20 + 4);
-            e.big_pairs::<70, 36>(random / 20 + 4);
-            e.big_pairs::<300, 300>(random / 200 + 2);
+            e.big_pairs::<Copyf, 40, 70>(random / 20 + 4);
+            e.big_pairs::<Copyf, 70, 36>(random / 20 + 4);
+            e.big_pairs::<Copyf, 300, 300>(random / 200 + 2);
+            e.big_pairs::<TinyF, 20, 24>(random / 20 + 4);
+            e.big_pairs::<WordF, 40, 70>(random / 20 + 4);
+            e.big_pairs::<OddF, 12, 16>(random / 20 + 4);
+            e.big_pairs::<Track, 12, 9>(random / 20 + 4);
         }
     }
     cx.finish();
